@@ -231,7 +231,11 @@ def laws(report, rng, t, inp):
         except Exception as ex:  # noqa
             report.fail('C10:relative-path-on-segment-node:%s' % type(ex).__name__, "get_value('../%s01') on a segment node raised %s" % (sib, type(ex).__name__), dict(inp, path=p))
     # L4 add_segment keeps map order: re-adding a copy of an existing segment puts it next to its siblings of that position
-    segs_top = [c for c in ctx_gen.live_children(t) if c.type == 'seg']
+    # only segments the MAP places directly in this loop can be added to it (in an ISA_LOOP tree GS / GE hang under the root although
+    # the map puts them in GS_LOOP: recorded under C09; add_segment rightly refuses them with X12PathError)
+    def own(c):
+        return getattr(getattr(c.x12_map_node, 'parent', None), 'id', None) == t.id
+    segs_top = [c for c in ctx_gen.live_children(t) if c.type == 'seg' and own(c)]
     if segs_top:
         sn = rng.choice(segs_top)
         report.count('law:add-in-map-order')
@@ -284,7 +288,7 @@ def laws(report, rng, t, inp):
                             dict(inp, path=p))
     # L4b the same placement law after a delete (the deleted node may still be in the children list)
     loops_top = [x for x in ctx_gen.live_children(t) if x.type == 'loop']
-    segs_top = [x for x in ctx_gen.live_children(t) if x.type == 'seg']
+    segs_top = [x for x in ctx_gen.live_children(t) if x.type == 'seg' and own(x)]
     if len(segs_top) >= 2:
         victim = segs_top[0] if len(segs_top) > 2 else None
         later = segs_top[-1]
@@ -302,7 +306,7 @@ def laws(report, rng, t, inp):
                 report.fail('C10:add-not-placed:after-delete', 'after a delete, add_segment did not put the node under the loop', inp)
     # L4c re-adding the FIRST segment after every sibling of its position was deleted: it must come first again
     live = ctx_gen.live_children(t)
-    if len(live) >= 2 and live[0].type == 'seg':
+    if len(live) >= 2 and live[0].type == 'seg' and own(live[0]):
         p0 = getattr(live[0].x12_map_node, 'pos', None)
         lows = [x for x in live if getattr(x.x12_map_node, 'pos', None) is not None and x.x12_map_node.pos <= p0]
         if p0 is not None and len(lows) < len(live) and all(x.type == 'seg' for x in lows):
